@@ -141,7 +141,7 @@ def all_paths_through_block(fn, bid, targets):
 
 
 def check_guard(rep, fn, name, atom_pred, domain, allowed, targets=None, rule="R-MPT",
-                target_desc="success return", require_dominance=True):
+                target_desc="success return", require_dominance=True, stable=False):
     """See module docstring.  domain: iterable of ints; allowed: subset that may reach the targets."""
     if targets is None:
         targets = success_returns(fn)
@@ -168,6 +168,21 @@ def check_guard(rep, fn, name, atom_pred, domain, allowed, targets=None, rule="R
                 why.append("at line %s value %d %s reach the %s" % (
                     cond.get("ln"), v, "can" if reach else "cannot", target_desc))
                 break
+        if ok and stable:
+            # the tested object must still be the same object at the target: none of the
+            # variables of the atom is written between the admitting edge and the target
+            from . import r_range
+            vids = core.ref_ids(atom)
+            for v in allowed:
+                s, known = edge_for_value(fn, bid, cond, atom, v)
+                for t in targets:
+                    if s is not None and r_range.written_between(fn, bid, s, t, vids, direct_only=True):
+                        ok = False
+                        why.append("the object tested at line %s is reassigned before the %s (the test no longer "
+                                   "applies to what is used there)" % (cond.get("ln"), target_desc))
+                        break
+                if not ok:
+                    break
         if ok:
             return rep.proved(rule, fn, name, desc, "branch at line %s (block B%d) dominates; edges checked for %s" % (
                 cond.get("ln"), bid, sorted(domain)), cond.get("ln"))
